@@ -185,6 +185,67 @@ def protocol (inp impl : Json) : Except String Resp := do
              why := s!"step {i}: {sig}",
              extra := some (jObj [("signature", jStr sig), ("step", jNat i)]) }
 
+/-! ## commands computed by the real method (`c08.staticpass`)
+
+The input describes the static NodePools and nodes and a history with `pass` steps; the implementation reports which
+commands the real `StaticDrift.ComputeCommands` returned (`cmds`, in start order) and how many every pass started
+(`passes`).  The model is run on the history in which every pass is replaced by the starts of its commands; the
+specification is the same independent observer, and additionally requires that a method only picks drifted nodes. -/
+
+def parsePStep (j : Json) : Except String PStep := do
+  match (← strF j "op") with
+  | "pass" => pure .pass
+  | "start" => .error "no start steps in a static-pass history"
+  | _ => pure (.plain (← parseStep j))
+
+def staticPass (inp impl : Json) : Except String Resp := do
+  let nodes ← arrF inp "nodes"
+  let drifted ← nodes.mapM (fun n => boolF n "drifted")
+  let ncands := nodes.length
+  let psteps ← (← arrF inp "steps").mapM parsePStep
+  let faults ← (← arrD inp "faults").mapM parseFault
+  let retrySteps ← natF inp "retrySteps"
+  let mode := TimeoutMode.ofCode Karp.Gen.OrchQueue.timeoutMode
+  match fldOpt impl "steps", fldOpt impl "cmds", fldOpt impl "passes" with
+  | some st, some cj, some pj => do
+    let cmds ← (← asArr cj).mapM (fun c => do pure ((← natList (← fld c "cands")), ← natF c "repls"))
+    let passes ← natList pj
+    let npass := (psteps.filter (· == .pass)).length
+    let echo := fun (steps : Json) => jObj [
+      ("cmds", jArr (cmds.map (fun (cs, n) => jObj [("cands", jArr (cs.map jNat)), ("repls", jNat n)]))),
+      ("passes", jArr (passes.map jNat)), ("steps", steps)]
+    if passes.length != npass || passes.foldl (· + ·) 0 != cmds.length then
+      return { model := none, spec := some false, why := "the reported passes do not add up to the reported commands" }
+    if cmds.any (fun (cs, _) => cs.isEmpty || cs.eraseDups.length != cs.length || cs.any (· ≥ ncands)) then
+      return { model := none, spec := some false, why := "a computed command has no / duplicate / unknown candidates" }
+    let steps := expand 0 passes psteps
+    let world := initWorld ncands cmds faults [] retrySteps mode
+    let tr := trace world steps
+    let model := echo (jArr (tr.map (fun (r, evs, w) => stepJson r evs w)))
+    let js ← asArr st
+    if js.length != steps.length then
+      return { model := some model, spec := some false, why := "implementation trace has the wrong length" }
+    -- only drifted nodes are disrupted by a drift method
+    match cmds.find? (fun (cs, _) => cs.any (fun c => !((drifted[c]?).getD false))) with
+    | some (cs, _) =>
+      return { model := some model, spec := some false, why := s!"a command over {cs} disrupts a node that has not drifted",
+               extra := some (jObj [("signature", jStr "undrifted-node-disrupted")]) }
+    | none => pure ()
+    let sc : Scenario := { ncands := ncands, cmds := cmds }
+    let parsed ← (steps.zip js).mapM (fun (s, j) => parseObs cmds s j)
+    let obs := parsed.map (·.1)
+    match check sc obs with
+    | none => pure { model := some model, spec := some true }
+    | some (i, cls, t) =>
+      let latchedBefore : List (List Bool) := if i = 0 then [] else ((parsed[i - 1]?).map (·.2)).getD []
+      let sig := match obs[i]? with
+        | some o => signatureOf sc cls t o latchedBefore
+        | none => cls
+      pure { model := some model, spec := some false,
+             why := s!"step {i} of the expanded history: {sig}",
+             extra := some (jObj [("signature", jStr sig), ("step", jNat i)]) }
+  | _, _, _ => pure { model := none, spec := some false, why := "implementation produced no trace (panic or harness error)" }
+
 /-! ## leaf op: `Queue.GetMaxRetryDuration` -/
 
 def retryDur (inp _impl : Json) : Except String Resp := do
@@ -196,6 +257,7 @@ def handle : Handler := fun op inp impl =>
   | "c08.protocol" => protocol inp impl
   | "c08.faults" => protocol inp impl
   | "c08.findings" => protocol inp impl
+  | "c08.staticpass" => staticPass inp impl
   | "c08.retry" => retryDur inp impl
   | _ => .error s!"unknown op {op}"
 
